@@ -46,6 +46,7 @@ class Ctx:
         self.trace = []
         self.pc = []
         self.forking = False
+        self.maxdepth = None
 
     def fresh(self, p="t"):
         self.n += 1
@@ -117,6 +118,8 @@ class SB:
         if not d.forking:
             raise RuntimeError("symbolic branch outside explore(): " + str(self.t)[:200])
         i = len(d.trace)
+        if d.maxdepth is not None and i >= d.maxdepth:
+            raise DepthBound()
         if i < len(d.prefix):
             v = d.prefix[i]
         else:
@@ -178,7 +181,14 @@ class Infeasible(Exception):
     """raised by harness code to abandon a path (e.g. an `assume` that cannot hold)"""
 
 
-def explore(fn, maxpaths=2000, setup=None):
+class DepthBound(Infeasible):
+    """the unwinding limit (number of symbolic decisions on one path) was reached: path abandoned and *counted*"""
+
+
+BOUND_HITS = [0]
+
+
+def explore(fn, maxpaths=2000, setup=None, maxdepth=None):
     """Run fn() once per feasible path (DFS over SB decisions).  Yields (path_condition, result, ctx_snapshot).
     CTX is reset before every run; `setup()` is called after the reset (declare preconditions there)."""
     stack = [[]]
@@ -188,11 +198,16 @@ def explore(fn, maxpaths=2000, setup=None):
         CTX.reset()
         CTX.prefix = prefix
         CTX.forking = True
+        CTX.maxdepth = maxdepth
         if setup:
             setup()
         try:
             res = fn()
             ok = True
+        except DepthBound:
+            BOUND_HITS[0] += 1
+            ok = False
+            res = None
         except Infeasible:
             ok = False
             res = None
@@ -272,11 +287,19 @@ class R:
 
     def sign_term(s):
         """a z3 term with the same sign as the value (denominators assumed non-zero)"""
-        t = z3.RealVal(1 if s.coef > 0 else (-1 if s.coef < 0 else 0))
+        sg = 1 if s.coef > 0 else (-1 if s.coef < 0 else 0)
+        t = None
         for tt, e in s.f.values():
             if e % 2:
-                t = t * tt
-        return z3.simplify(t)
+                if e < 0:
+                    ps = proved_sign(tt)      # denominators of proved sign do not enter the comparison
+                    if ps:
+                        sg *= ps
+                        continue
+                t = tt if t is None else t * tt
+        if t is None:
+            return z3.RealVal(sg)
+        return z3.simplify(t if sg == 1 else z3.RealVal(sg) * t)
 
     # ---- arithmetic
     def __mul__(s, o):
@@ -689,7 +712,7 @@ class R:
         if len(s.f) == 1 and abs(s.coef) == 1:
             (k, (t, e)), = s.f.items()
             if e == 1 and k in CTX.hyp:
-                ch, sh = CTX.hyp[k]
+                ch, sh = CTX.hyp[k][:2]
                 return (ch, sh) if s.coef == 1 else (ch, -sh)
         n, d = s.num_den()
         kk = "hopq:" + z3.simplify(n * z3.Real("__k1") - d * z3.Real("__k2"), som=True).sexpr()
@@ -716,14 +739,14 @@ class R:
         rho = (1 - s * s).sqrt()
         CTX.n += 1
         v = z3.Real(f"val_atanh{CTX.n}")
-        CTX.hyp[key(v)] = (1 / rho, s / rho)
+        CTX.hyp[key(v)] = (1 / rho, s / rho, v)
         return R.of(v)
 
     @staticmethod
     def hangle(name):
         v = z3.Real(f"val_{name}")
         ch, sh = z3.Real(f"ch_{name}"), z3.Real(f"sh_{name}")
-        CTX.hyp[key(v)] = (R.of(ch), R.of(sh))
+        CTX.hyp[key(v)] = (R.of(ch), R.of(sh), v)
         con = z3.And(ch * ch - sh * sh == 1, ch >= 1, z3.Implies(v > 0, sh > 0), z3.Implies(v < 0, sh < 0),
                      z3.Implies(v == 0, sh == 0))
         CTX.cons.append(con)
@@ -822,7 +845,7 @@ def proved_sign(t):
     """+1 / -1 when the solver proves the sign of t under the precondition and the defining constraints, else 0"""
     k = key(t)
     if k in CTX.signcache:
-        return CTX.signcache[k]
+        return CTX.signcache[k][1]
     res = 0
     for sg, bad in ((1, t <= 0), (-1, t >= 0)):
         so = z3.Solver()
@@ -837,14 +860,17 @@ def proved_sign(t):
         if r == "unsat":
             res = sg
             break
-    CTX.signcache[k] = res
+    CTX.signcache[k] = (t, res)
     if res:
         CTX.log.append(f"sign proved {'+' if res > 0 else '-'}: {str(t)[:60]}")
     return res
 
 
-def neq(a, b):
-    """z3 constraint 'a != b' (denominators non-zero by side conditions)"""
+def neq(a, b, mark=None):
+    """z3 constraint 'a != b' (denominators non-zero by side conditions).
+    Without `mark` (internal hint / sign queries) a numerator factor whose normal form modulo the root / atom
+    definitions is zero short-circuits to False.  With `mark` (a list; used for obligations) the formula is returned
+    unreduced so that the solver decides it, and mark gets True appended when the normal form closes it as well."""
     d = R.lift(a) - R.lift(b)
     if d.coef == 0:
         return z3.BoolVal(False)
@@ -853,7 +879,9 @@ def neq(a, b):
         if e > 0:
             if CTX.reduce and _reduces_to_zero(t):
                 CTX.nf_closed += 1
-                return z3.BoolVal(False)
+                if mark is None:
+                    return z3.BoolVal(False)
+                mark.append(True)
             n = n * t  # t^e != 0 <=> t != 0
     if not d.f:
         return z3.BoolVal(True)
@@ -869,7 +897,7 @@ def _reduces_to_zero(t):
     from . import poly
     k = (t.get_id(), len(CTX.rules))
     if k in CTX.nfcache:
-        return CTX.nfcache[k]
+        return CTX.nfcache[k][1]
     res = False
     try:
         cache = {}
@@ -878,7 +906,7 @@ def _reduces_to_zero(t):
         res = p.is_zero()
     except poly.TooBig:
         res = False
-    CTX.nfcache[k] = res
+    CTX.nfcache[k] = (t, res)     # keep the term alive: z3 reuses ids of collected ASTs
     return res
 
 
